@@ -26,7 +26,7 @@ ASSUMPTIONS = [
 BUDGET = {'quick': 320, 'thorough': 16000}
 EXHAUSTIVE_DOMAINS = {
     'shapes2': 'all shapes with <=2 decision points, k<=3, <=3 candidates, sub-space at first or last candidate, reference size<=24 (thorough: <=80)',
-    'shapes3': 'thorough only: every 3rd shape with <=3 decision points and reference size<=80',
+    'shapes3': 'thorough only: every 9th shape with <=3 decision points and reference size<=80',
 }
 
 
@@ -51,7 +51,7 @@ def exhaustive(tier):
         yield {'shape': s, 'seeds': [1, 2], 'corrupt': 'all'}
   out = {'shapes2': wrap(genospec.enumerate_shapes(2))}
   if tier == 'thorough':
-    out['shapes3'] = wrap(genospec.enumerate_shapes(3), 3)
+    out['shapes3'] = wrap(genospec.enumerate_shapes(3), 9)
   return out
 
 
